@@ -145,6 +145,8 @@ def run_verus_unit(u, tier):
     res['functions'] = [{'fn': f, 'mode': m, 'solver_us': t, 'ok': ok} for (f, m, t, ok) in r.functions]
     if r.undecided:
         res['undecided'] = r.undecided
+    elif getattr(r, 'unclassified', None):
+        res['undecided'] = 'Verus reported errors of an unknown kind next to the named failures: ' + r.unclassified
     # obligations = labelled clauses + one body obligation per function under contract
     labels = sorted(set(l for l in gen.labels.values() if not l.startswith('CANARY.')))
     failed = {}
